@@ -61,7 +61,12 @@ class ThreadsWorld(object):
   def on_sched_thread(self):
     return self.ns.current_thread() is self.sched_facade
 
+  extra_scheds = ()
+
   def stop_scheduler(self):
     """ask the scheduler loop (and hub thread) to end"""
     self.sched.quit()
     self.sched._selectHub.break_idle()
+    for s in self.extra_scheds:
+      s.quit()
+      s._selectHub.break_idle()
